@@ -656,6 +656,11 @@ class Canon:
                     r = self._inline_property(base, qual)
                     if r is not None:
                         return r
+        # a property defined as the negation of another one (is_soft == not is_hard) is written with that other one
+        if self.model is not None and base != ("self",):
+            twin = self.model.negated_twin(name)
+            if twin is not None:
+                return mk_not(("a", base, twin))
         return ("a", base, name)
 
     def _inline_property(self, base: S, qual: str) -> Optional[S]:
@@ -2022,6 +2027,19 @@ def _unfold_list_comps(block: tuple, fresh) -> tuple:
                 out.append(("set", t, ("list", ())))
                 out.append(loop(t, st[1]))
                 out.append(("ret", t))
+                continue
+            if st[0] == "ret" and isinstance(st[1], tuple) and st[1][:1] == ("tuple",) and any(simple(x) for x in st[1][1]):
+                # a returned tuple with a list comprehension as one of its items: that list is collected first
+                items = []
+                for x in st[1][1]:
+                    if simple(x):
+                        t = fresh()
+                        out.append(("set", t, ("list", ())))
+                        out.append(loop(t, x))
+                        items.append(t)
+                    else:
+                        items.append(x)
+                out.append(("ret", ("tuple", tuple(items))))
                 continue
             if st[0] == "if" and len(st) == 4:
                 st = ("if", st[1], _unfold_list_comps(st[2], fresh), _unfold_list_comps(st[3], fresh))
